@@ -8,6 +8,8 @@ THEOREMS = [
     'FlexVerif.Re.plus_matches', 'FlexVerif.Re.opt_matches',
     'FlexVerif.RuleSet.specAuto_tags', 'FlexVerif.RuleSet.specAuto_first',
     'FlexVerif.closed_sound', 'FlexVerif.validate_sound', 'FlexVerif.validate_first_rule',
+    'FlexVerif.specCands_selects', 'FlexVerif.specCands_nil', 'FlexVerif.specCands_ne_nil',
+    'FlexVerif.tableCands_selects',
 ]
 
 
